@@ -42,7 +42,10 @@ def steadyFamilies : List String := [
   "traits.ring_buffers_debug_clone_eq_while_rotating",
   "traits.rms_and_envelope_detectors_debug_clone_while_running",
   "traits.custom_width_samples_debug_cmp",
-  "traits.signal_adaptors_clone_mid_stream"]
+  "traits.signal_adaptors_clone_mid_stream",
+  "formats.custom_width_operators_add_sub_mul_neg",
+  "formats.packed_and_wide_frames_through_frame_slice_signal_dsp",
+  "formats.packed_frames_slice_in_place_and_signal_adaptors"]
 
 /-- modelled steady-state allocation effect of a catalogue family; `none` = not in the catalogue -/
 def effectOf (family : String) : Option Effect :=
